@@ -148,8 +148,9 @@ def observe_refine(torch, U, m, prepare, cb=None):
         return out
 
     U._compute_cost, U._reassign_precisions = cc, re_
+    said = io.StringIO()
     try:
-        with contextlib.redirect_stdout(io.StringIO()):
+        with contextlib.redirect_stdout(said):
             U.optimize_prec_assignment(m, "ne16")
     except AssertionError as e:
         return {"skip": "optimize_prec_assignment assertion: " + str(e)[:80]}
@@ -180,7 +181,15 @@ def observe_refine(torch, U, m, prepare, cb=None):
                   "base": centi(calls[0][1]),
                   "visits": [[round(x * 1000) for x in v] for v, _ in calls[1:]],
                   "vcost": [centi(c) for _, c in calls[1:]]})
-    return {"k": "model", "cb": centi(cb), "ca": centi(ca), "layers": L}
+    rec = {"k": "model", "cb": centi(cb), "ca": centi(ca), "layers": L}
+    import re
+    ann = re.findall(r"Model cost decreased from ([-+.eE\d]+) to ([-+.eE\d]+)", said.getvalue())
+    if ann:
+        try:
+            rec["ann"] = [centi(float(ann[-1][0])), centi(float(ann[-1][1]))]   # what the function announces
+        except (ValueError, OverflowError):
+            pass
+    return rec
 
 
 # ------------------------------------------------------------------------------------- sampling life cycle
@@ -302,6 +311,97 @@ class LifeBench:
         return {"k": "mlife", "hist": list(hist), "pre": pre, "obs": obs, "fresh": fr}
 
 
+# ------------------------------------------------------------------------------------- several refinable layers
+class MultiBench:
+    """Chains of refinable layers with independent geometry (ReassignMulti): conv3x3 / conv1x1 / linear, optional 2x2
+    pooling, widths 8 / 16 (also EQUAL widths), precisions (4, 8), trained-like alpha => clean domain."""
+
+    def __init__(self, torch, U):
+        import copy
+        self.torch, self.U, self.copy = torch, U, copy
+        self._arch = {}
+
+    def pristine(self, ml):
+        import torch.nn as nn
+        from plinio.methods.mps import MPS, MPSType, get_default_qinfo
+        from plinio.cost import ne16_latency
+        torch = self.torch
+        key = tuple((L["kind"], L["c"], bool(L["pool"]), L["cin"]) for L in ml)
+        if key in self._arch:
+            return self._arch[key]
+        spec = [(L["kind"], L["c"], bool(L["pool"])) for L in ml]
+        cin0 = ml[0]["cin"]
+
+        class Net(nn.Module):
+            def __init__(self):
+                super().__init__()
+                c = cin0
+                for i, (kind, w, _) in enumerate(spec):
+                    if kind == "lin":
+                        self.add_module(f"l{i}", nn.Linear(c, w))
+                    else:
+                        k = 3 if kind == "3x3" else 1
+                        self.add_module(f"l{i}", nn.Conv2d(c, w, k, padding=k // 2))
+                    c = w
+                self.pool = nn.AvgPool2d(2)
+                self.gap = nn.AdaptiveAvgPool2d(1)
+
+            def forward(self, x):
+                for i, (kind, _, pool) in enumerate(spec):
+                    if kind == "lin":
+                        x = getattr(self, f"l{i}")(self.gap(x).flatten(1))
+                    else:
+                        if pool:
+                            x = self.pool(x)
+                        x = torch.relu(getattr(self, f"l{i}")(x))
+                return x
+
+        torch.manual_seed(4321)
+        m = MPS(Net(), cost={"ne16": ne16_latency}, input_shape=(cin0, 6, 6), w_search_type=MPSType.PER_CHANNEL,
+                qinfo=get_default_qinfo(w_precision=LIFE_BITS, a_precision=(8,)))
+        self._arch[key] = m
+        return m
+
+    def run(self, ml):
+        """ml: the chain as enumerated by TLC ([{kind, h, w, cin, c, pool, n0}])."""
+        from plinio.graph.inspection import shapes_dict
+        from plinio.methods.mps.nn.qtz import MPSPerChannelQtz
+        torch, U = self.torch, self.U
+        m = self.copy.deepcopy(self.pristine(ml))
+        names = [f"l{i}" for i in range(len(ml))]
+        mods = {ln: (node, l) for ln, node, l in m._leaf_modules if ln in names}
+        if set(mods) != set(names) or any(not isinstance(mods[n][1].w_mps_quantizer, MPSPerChannelQtz) for n in names):
+            raise tlc.MachineryError("multi bench: layers of the chain not found in the converted model")
+        for i, (ln, L) in enumerate(zip(names, ml)):
+            mods[ln][1].w_mps_quantizer.alpha.data = _trained_like(torch, tuple(L["n0"]), L["c"], i)
+        m.update_softmax_options(hard=True)
+        with torch.no_grad():
+            m(m._input_example)
+        fmap = m._cost_fn_map["ne16"]
+
+        def own():
+            with torch.no_grad():
+                return [round(float(m._cost_reduction_fn(mods[ln][1].get_cost(fmap[ln], shapes_dict(mods[ln][0])))) * 100)
+                        for ln in names]
+        # Cost[l][counts] for every split (j channels at 4 bit, c - j at 8 bit), from the real per-layer cost function
+        tab = []
+        with torch.no_grad():
+            for ln, L in zip(names, ml):
+                c = L["c"]
+                node, layer = mods[ln]
+                tab.append([round(float(U._compute_cost(m, layer, [torch.tensor(j / c), torch.tensor((c - j) / c)],
+                                                        fmap, ln, node)) * 100) for j in range(c + 1)])
+        ownb = own()
+        obs = observe_refine(torch, U, m, prepare=True)
+        if "skip" in obs:
+            return obs
+        owna = own()
+        if [l["name"] for l in obs["layers"]] != names:
+            raise tlc.MachineryError("multi bench: refined layers differ from the chain")
+        geo = [{"kind": "1x1" if L["kind"] == "lin" else L["kind"], "h": L["h"], "w": L["w"], "cin": L["cin"]} for L in ml]
+        return {"k": "multi", "geo": geo, "tab": tab, "ownb": ownb, "owna": owna, "obs": obs}
+
+
 def random_model_scenario(rng, big):
     bits = list(rng.choice(ASC_BITS) if rng.random() < 0.85 else rng.choice(OTHER_BITS))
     hi = 70 if big else 40
@@ -324,6 +424,7 @@ def run(tier: str, seed: int, replay=None) -> int:
         "counts compared after rounding to the nearest integer (|x-round x| <= 0.002); costs in 1/100 cycle with slack 1 + cost/1e5",
         "whole models: conv3x3 -> conv1x1 -> linear, activations 8 bit (NE16 requirement); depthwise layers not generated",
         "the searches and _compute_cost are observed by wrapping the two module-level helpers from outside",
+        "several layers: chains of 1-2 (thorough: up to 3, 600 sampled 3-layer chains) refinable layers conv3x3 / conv1x1 / linear, widths 8 / 16 incl. equal widths, optional 2x2 pooling, first-layer inputs 3 (thorough: also 40) channels, precisions (4,8), trained-like alpha; announced costs parsed from the printed message, compared with get_cost in 1/100 cycle (slack 1 + cost/1e5); the per-layer cost tables come from the library's own per-layer cost function called by the harness",
         "life cycle: every pre-history of at most 2 (thorough: 3) public calls out of 12 (train, eval, forward, each single sampling option on/off, two temperatures, alpha write) on a clean model (conv3x3 8 and 16 channels, precisions (4,8), trained-like alpha with margin 3, so that F18/F27/F28 do not interfere); outcome compared with a fresh model holding the same alpha; Gumbel noise seeded",
     ]
     torch, U = _env()
@@ -331,7 +432,9 @@ def run(tier: str, seed: int, replay=None) -> int:
 
     if replay:
         sc = json.load(open(replay))["scenario"]
-        if sc["kind"] == "mlife":
+        if sc["kind"] == "multi":
+            tr = MultiBench(torch, U).run(sc["ml"])
+        elif sc["kind"] == "mlife":
             tr = LifeBench(torch, U).run(sc["hist"])
         elif sc["kind"] == "model":
             tr = run_model(torch, U, sc)
@@ -453,6 +556,41 @@ def run(tier: str, seed: int, replay=None) -> int:
                                                 "chosen": [l["bestu"] for l in ltr[-1].get("obs", {"layers": []})["layers"]]}})
     R.validate("ReassignTrace", "ReassignTrace", ltr, lsc, nontrivial=lambda s_: len(s_["hist"]) > 0,
                label="sampling life cycle", workers=8, env=JENV)
+
+    # ---- 3c. several refinable layers with independent geometry (equal widths included)
+    mdot = tempfile.mktemp(prefix="c20m-", suffix=".dot", dir=tlc.scratch())
+    mres = R.design("ReassignMulti", "ReassignMulti_thorough" if thorough else "ReassignMulti_quick", workers=8,
+                    dump_dot=mdot, coverage=True, require_cov=["ReassignMulti!AddLayer"], env=JENV)
+    R.design("ReassignMulti", "ReassignMulti_shared", workers=4, expect_ok=False, env=JENV)    # shared cost table: caught
+    R.design("ReassignMulti", "ReassignMulti_collide", workers=4, expect_ok=False, env=JENV)   # equal widths do collide
+    mnodes, _, _ = tlc.parse_dot(mdot)
+    if len(mnodes) != mres.distinct:
+        raise tlc.MachineryError(f"dump has {len(mnodes)} states, TLC reported {mres.distinct}")
+    chains = [stt["ml"] for stt in mnodes.values() if len(stt["ml"]) >= 1]
+    chains.sort(key=lambda ml_: json.dumps(ml_, sort_keys=True))
+    if thorough:
+        small = [c_ for c_ in chains if len(c_) <= 2]
+        big = [c_ for c_ in chains if len(c_) > 2]
+        random.Random(seed + 7).shuffle(big)
+        chains = small + big[:600]
+    mb = MultiBench(torch, U)
+    mtr2, msc2, mskip = [], [], 0
+    for ml_ in chains:
+        tr = mb.run(ml_)
+        if "skip" in tr:
+            mskip += 1
+            continue
+        mtr2.append(tr)
+        msc2.append({"kind": "multi", "ml": ml_,
+                     "equal_width": len({L_["c"] for L_ in ml_}) < len(ml_)})
+    R.extra["multi_layer_chains_replayed"] = len(mtr2)
+    R.extra["multi_layer_chains_skipped"] = mskip
+    R.extra["multi_layer_chains_with_equal_widths"] = sum(1 for s_ in msc2 if s_["equal_width"])
+    if mtr2:
+        R.sample({"scenario": msc2[-1], "observed": {"ann": mtr2[-1]["obs"].get("ann"), "cb": mtr2[-1]["obs"]["cb"],
+                                                     "ca": mtr2[-1]["obs"]["ca"], "ownb": mtr2[-1]["ownb"], "owna": mtr2[-1]["owna"]}})
+    R.validate("ReassignTrace", "ReassignTrace", mtr2, msc2, nontrivial=lambda s_: len(s_["ml"]) >= 2,
+               label="several refinable layers", workers=8, env=JENV)
 
     # ---- 4. whole models
     n_models = 260 if thorough else 36
